@@ -211,6 +211,10 @@ class Exec(CallsMixin):
 
     def assign(self, target, v, st: State, node):
         if isinstance(target, ast.Name):
+            if target.id in self.opts.get("int_sets", ()) and isinstance(v, Ref) and st.cell(v).kind == "set" and st.cell(v).val.tag == "st":
+                from .sym import EMPTY_ISET, EMPTY_SET
+                if st.cell(v).val.e.eq(EMPTY_SET):
+                    st.wcell(v).val = Val("sti", EMPTY_ISET)  # declared set of ints (contract option int_sets)
             g = self.guard_cond()
             if g is not None and target.id in st.vars:
                 v = self.ite_slot(g, v, st.vars[target.id], st, node)
@@ -257,6 +261,13 @@ class Exec(CallsMixin):
                     new = ite_val(g, new, c.val)
                 st.wcell(recv).val = new
                 return
+            if isinstance(target.value, ast.Name) and isinstance(recv, Val) and recv.tag in ("any", "d"):
+                # a dict obtained from an opaque call and held only by this local: update it in place under a fresh reference
+                d0 = self.need(recv, "d", st, node)
+                ref = st.new(Cell("dict", val=Val("d", d0)))
+                st.vars[target.value.id] = ref
+                self.assumptions.add(f"the dict held by local `{target.value.id}` (result of an opaque call) is not aliased elsewhere")
+                return self.assign(target, v, st, node)
             self.oos("subscript assignment to a value that is not a local reference", node)
         self.oos("assignment target", node)
 
@@ -536,7 +547,10 @@ class Exec(CallsMixin):
                     # rebinding a container variable: new unknown container
                     c = st.cell(cur)
                     tag = c.val.tag
-                    st.vars[n] = st.new(Cell(c.kind, val=Val(tag, fresh(f"loop_{n}", {"d": DictS, "l": ListS, "st": SetS}[tag]))))
+                    if tag == "st" and n in self.opts.get("int_sets", ()):
+                        tag = "sti"
+                    from .sym import PAYLOAD_SORT
+                    st.vars[n] = st.new(Cell(c.kind, val=Val(tag, fresh(f"loop_{n}", PAYLOAD_SORT[tag]))))
                 elif isinstance(cur, Val) and cur.tag in ("i", "b", "s"):
                     st.vars[n] = Val(cur.tag, fresh(f"loop_{n}", {"i": IntS, "b": BoolS, "s": StrS}[cur.tag]))
                 elif isinstance(cur, Val) and cur.tag in ("d", "l", "st"):
